@@ -348,11 +348,17 @@ def fire_chain(I, d, result, start=0):
         except PyRaise as pr:
             result = failure_stub(pr.exc if not isinstance(pr.exc, SObj) else pr.exc, pr.cls) if not isinstance(pr.exc, SObj) else _sobj_failure(pr)
         if isinstance(result, DStub):
-            if result.state == "pending":
+            if result.state in ("pending", "waiting"):
                 d.state = "waiting"          # the chain is paused on the inner Deferred; nothing further runs now
                 d._next = i                  # resume with fire_chain(I, d, <result of the inner Deferred>, start=d._next)
                 return result, ran
-            inner, _ = fire_chain(I, result, result.value if result.state == "succeeded" else result.value)
+            inner_d = result
+            inner, _ = fire_chain(I, inner_d, inner_d.value)
+            if inner_d.state == "waiting":       # the inner chain is itself paused on a pending Deferred
+                d.state = "waiting"
+                d._next = i
+                d._waiting_on = inner_d
+                return inner, ran
             result = inner
     d.state = "failed" if is_failure(result) else "succeeded"
     d.value = result
